@@ -4,6 +4,7 @@ import (
 	"crypto/sha256"
 	"encoding/hex"
 	"encoding/json"
+	"errors"
 	"fmt"
 	"math/rand"
 	"sort"
@@ -100,6 +101,17 @@ func (h *history) connFailed(c *mconn, what string, err error) {
 			h.witness(map[string]interface{}{"connection": c.Slot, "what": what}))
 		h.violated = true
 		h.abort("connection dead after an idle period")
+		return
+	}
+	var me *refctl.MalformedError
+	if errors.As(err, &me) {
+		// the accessory's byte stream on this connection no longer parses as HTTP responses and EVENT messages (a message
+		// whose body is not as long as its Content-Length says, bytes between messages): what was sent is not "exactly one
+		// EVENT message carrying the new value"
+		h.r.Violation("event:stream-malformed", fmt.Sprintf("after %q the byte stream the accessory sends on connection c%d is not a sequence of well-formed HTTP / EVENT messages: %v", h.log[len(h.log)-1], c.Slot, err),
+			h.witness(map[string]interface{}{"connection": c.Slot, "what": what}))
+		h.violated = true
+		h.abort("malformed stream")
 		return
 	}
 	if p := httpPanicFor(c.local); p != nil {
